@@ -14,7 +14,7 @@ CHECKS = {
    note=TRUST + "oracles are exhaustive per program.", ref="DESIGN.md sec. 3, 5/C01"),
  "C02": dict(cat="model_checking", engine="refine",
    tech="TLA+ product exploration over the TLC-enumerated expression family (GenExpr.tla)",
-   text="Every boolean-expression tree with <= 3 leaves (exhaustive, enumerated by TLC from GenExpr.tla) and 4-leaf trees (sampled quick, exhaustive thorough) x leaf forms of the manual, as if/elif/while/do-while conditions, rendered minimally and with redundant parentheses; the product with the real output is explored under every truth assignment.",
+   text="Every boolean-expression tree with <= 3 leaves (exhaustive, enumerated by TLC from GenExpr.tla) and 4-leaf trees (sampled quick, exhaustive thorough) x leaf forms of the manual, as if/elif/while/do-while conditions, rendered minimally and with redundant parentheses; the product with the real output is explored under every truth assignment. Also every well-formed condition text of <= 11 (13) tokens over ( ) && || ! leaf, compiled exactly as written, against its usual reading (precedence parser in the harness).",
    note=TRUST + "the source side evaluates the generator's tree, never the parser's.", ref="DESIGN.md sec. 5/C02"),
  "C03": dict(cat="model_checking", engine="refine",
    tech="TLA+ product exploration over the TLC-enumerated switch family (GenSwitch.tla)",
